@@ -1329,11 +1329,13 @@ def main(run: Run):
     ok_p = run.prove("C10", OBLIGATIONS) if ok_t else False
     run.assumptions += [
         "theorems are over the reals; the oracles allow float32 rounding: values before / after the step within 1e-5 * (1 + |value|) "
-        "(attachment sums: 1 + sum of the absolute values of their terms), |mean xi| <= 1e-6 * max(1, max |xi|), "
+        "(attachment sums: 1 + sum of the absolute values of their terms) plus the first-order propagation of the float32 roundings "
+        "of log_v0 + m, xi - m and of the recomputed basis (rounding_allowance), |mean xi| <= 1e-6 * max(1, max |xi|), "
         "|w . Gv0| <= 1e-5 |w| |Gv0|",
         "population values stay where float32 exp neither underflows nor overflows (|log_v0|, |log_g| <= 10): for log_v0[0] < -103 "
         "exp underflows to 0, torch.sign(0) = 0 and the basis is the one of C10_orthogonal_first_zero_refuted — a float range effect, "
-        "no real value of the velocities gives it (C10_direction_positive)",
+        "no real value of the velocities gives it (C10_direction_positive); shared-speed random states keep log_g in [-1, 2], "
+        "deltas in [-1, 1] (float32 cancellation 1 - gamma in g_metric beyond)",
         "reads of derived variables after the two puts of the step are fresh (C01)",
     ]
     run.explanation = ("Theorems over R about definitions regenerated from the code on every run (traced node functions, ast translation of "
